@@ -1,9 +1,32 @@
-(* Props/C12.v — property C12: statements only.  Each theorem is closed by `exact`. *)
+(* Props/C12.v — property C12 (Merkle set roots are canonical, proofs complete and sound):
+   statements only.  Each theorem is closed by `exact`.
+   H is an arbitrary hash function; nothing is assumed about it unless stated. *)
 From ChiaV.Base Require Import Bytes Sha256.
 From ChiaV.Gen Require Import Mset.
-From ChiaV.Merkle Require Import MerkleSpec MerkleSet MerkleTree MerkleConstProofs.
+From ChiaV.Merkle Require Import MerkleSpec MerkleSet MerkleTree MerkleConstProofs MerkleSetProofs MerkleProofSpec MerkleTreeProofs.
 Open Scope N_scope.
 
 (* EMPTY_NODE_HASH (merkle_tree.rs) is SHA-256 of BLANK (merkle_set.rs), both read from the source on this run *)
 Theorem C12_empty_node_hash : EMPTY_NODE_HASH = sha256 BLANK.
 Proof. exact empty_node_hash_is_sha_blank. Qed.
+
+(* (1) compute_merkle_set_root (two-pointer in-place radix sort) never panics / runs out of fuel and
+   returns the reference root: the hash of the collapsed binary trie of the SET of leaves *)
+Theorem C12_root_is_spec : forall (H : bytes -> bytes) l, Forall leaf32 l ->
+  compute_merkle_set_root H l = Ok (spec_root H l).
+Proof. exact compute_root_spec. Qed.
+
+(* the reference root depends only on membership *)
+Theorem C12_spec_root_of_set : forall (H : bytes -> bytes) l l', Forall leaf32 l ->
+  (forall x, In x l <-> In x l') -> spec_root H l = spec_root H l'.
+Proof. exact spec_root_ext. Qed.
+
+(* hence: the root is invariant under permutation and duplication of the leaf list *)
+Theorem C12_root_of_set : forall (H : bytes -> bytes) l l', Forall leaf32 l -> Forall leaf32 l' ->
+  (forall x, In x l <-> In x l') -> compute_merkle_set_root H l = compute_merkle_set_root H l'.
+Proof. exact compute_root_set_invariant. Qed.
+
+(* (2) MerkleSet::from_leafs (node vector with cached hashes) succeeds and its get_root equals compute_merkle_set_root *)
+Theorem C12_tree_root_agrees : forall (H : bytes -> bytes) l, Forall leaf32 l ->
+  exists t, from_leafs H l = Ok t /\ get_root H t = compute_merkle_set_root H l.
+Proof. exact from_leafs_root. Qed.
